@@ -193,6 +193,9 @@ class History:
                 if rng.random() < 0.5:
                     s = M.rc(s)
                 recs.append(s + 'N')
+        if len(recs) >= 2 and rng.random() < 0.4:
+            # a record without any k-mer (shorter than k, or riddled with N) between records that have some
+            recs.insert(rng.randint(1, len(recs) - 1), rng.choice([G.rseq(rng, rng.randint(1, self.k - 1)), 'N' * (self.k + 3), 'ACGTN' * self.k]))
         G.write_fa(self.ctx.path('w.fa'), recs)
         literal = rng.random() < 0.3
         target = self.cur
